@@ -64,7 +64,7 @@ impl Q {
 /// canonical answer of one query: `main` is what the property compares, `ids` the frame ids in answer order,
 /// `scores` the f32 bit patterns that came with them
 #[derive(Clone, Debug, PartialEq)]
-struct Ans { main: String, ids: Vec<u64>, scores: Vec<u32> }
+struct Ans { main: String, ids: Vec<u64>, scores: Vec<u32>, aux: String }
 
 fn run_lex(mem: &mut Memvid, q: &LexQ) -> Ans {
     let req = SearchRequest {
@@ -80,11 +80,11 @@ fn run_lex(mem: &mut Memvid, q: &LexQ) -> Ans {
                 main: format!("ok engine={:?} total={} next={} stale={} hits=[{}]", r.engine, r.total_hits, r.next_cursor.clone().unwrap_or_else(|| "-".into()),
                     r.stale_index_skips, hits.join(" ")),
                 ids: r.hits.iter().map(|h| h.frame_id).collect(),
-                scores: r.hits.iter().map(|h| h.score.map(f32::to_bits).unwrap_or(0)).collect(),
+                scores: r.hits.iter().map(|h| h.score.map(f32::to_bits).unwrap_or(0)).collect(), aux: String::new(),
             }
         }
-        Ok(Err(e)) => Ans { main: format!("err {e}"), ids: vec![], scores: vec![] },
-        Err(p) => Ans { main: format!("panic {p}"), ids: vec![], scores: vec![] },
+        Ok(Err(e)) => Ans { main: format!("err {e}"), ids: vec![], scores: vec![], aux: String::new() },
+        Err(p) => Ans { main: format!("panic {p}"), ids: vec![], scores: vec![], aux: String::new() },
     }
 }
 
@@ -92,10 +92,10 @@ fn run_vec(mem: &mut Memvid, q: &VecQ) -> Ans {
     match guarded(AssertUnwindSafe(|| mem.search_vec(&q.q, q.k))) {
         Ok(Ok(hits)) => Ans {
             main: format!("ok [{}]", hits.iter().map(|h| format!("{}:{:08x}", h.frame_id, h.distance.to_bits())).collect::<Vec<_>>().join(" ")),
-            ids: hits.iter().map(|h| h.frame_id).collect(), scores: hits.iter().map(|h| h.distance.to_bits()).collect(),
+            ids: hits.iter().map(|h| h.frame_id).collect(), scores: hits.iter().map(|h| h.distance.to_bits()).collect(), aux: String::new(),
         },
-        Ok(Err(e)) => Ans { main: format!("err {}", map_err(&e).0), ids: vec![], scores: vec![] },
-        Err(p) => Ans { main: format!("panic {p}"), ids: vec![], scores: vec![] },
+        Ok(Err(e)) => Ans { main: format!("err {}", map_err(&e).0), ids: vec![], scores: vec![], aux: String::new() },
+        Err(p) => Ans { main: format!("panic {p}"), ids: vec![], scores: vec![], aux: String::new() },
     }
 }
 
@@ -106,9 +106,10 @@ fn run_tl(mem: &mut Memvid, q: &TlQ) -> Ans {
             main: format!("ok [{}]", es.iter().map(|e| format!("{}:{}:{}:{}:{}", e.timestamp, e.frame_id, b3short(e.preview.as_bytes()),
                 e.uri.clone().unwrap_or_else(|| "-".into()), e.child_frames.iter().map(|c| c.to_string()).collect::<Vec<_>>().join("+"))).collect::<Vec<_>>().join(" ")),
             ids: es.iter().map(|e| e.frame_id).collect(), scores: vec![],
+            aux: if es.is_empty() { "ok -".into() } else { format!("ok {}", es.iter().map(|e| format!("{}:{}", e.timestamp, e.frame_id)).collect::<Vec<_>>().join(",")) },
         },
-        Ok(Err(e)) => Ans { main: format!("err {e}"), ids: vec![], scores: vec![] },
-        Err(p) => Ans { main: format!("panic {p}"), ids: vec![], scores: vec![] },
+        Ok(Err(e)) => Ans { main: format!("err {e}"), ids: vec![], scores: vec![], aux: String::new() },
+        Err(p) => Ans { main: format!("panic {p}"), ids: vec![], scores: vec![], aux: String::new() },
     }
 }
 
@@ -237,6 +238,8 @@ struct Side {
     vec_enabled: bool,
     vec_manifest: Option<(u64, u32, u64)>,
     sketch: Vec<SkEnt>,
+    sketch_real: Vec<memvid_core::types::SketchEntry>,
+    sketch_variant: String,
     lex_docs: Option<u64>,
     frames: Vec<(u64, i64, char, char)>,
 }
@@ -253,7 +256,9 @@ fn side_of(mem: &mut Memvid) -> Side {
     let frames = verif_hooks::verif_frames(mem).iter().map(|f| (f.id, f.timestamp,
         match f.role { memvid_core::FrameRole::Document => 'd', memvid_core::FrameRole::DocumentChunk => 'c', memvid_core::FrameRole::ExtractedImage => 'i' },
         match f.status { memvid_core::FrameStatus::Active => 'a', memvid_core::FrameStatus::Superseded => 's', memvid_core::FrameStatus::Deleted => 'd' })).collect();
-    Side { vec_docs, vec_enabled: st.vec_enabled, vec_manifest: ix.vec_manifest, sketch: sketch_entries(mem.sketches()), lex_docs: ix.lex_num_docs, frames }
+    Side { vec_docs, vec_enabled: st.vec_enabled, vec_manifest: ix.vec_manifest, sketch: sketch_entries(mem.sketches()), sketch_real: mem.sketches().iter().cloned().collect(),
+           sketch_variant: match mem.sketches().variant { memvid_core::types::SketchVariant::Small => "small", memvid_core::types::SketchVariant::Medium => "medium", memvid_core::types::SketchVariant::Large => "large" }.to_string(),
+           lex_docs: ix.lex_num_docs, frames }
 }
 
 #[derive(Clone, Debug, Default)]
@@ -315,7 +320,7 @@ fn docs_wire(d: &Option<Vec<(u64, Vec<u32>)>>) -> String {
 fn sketch_wire(s: &[SkEnt]) -> String {
     if s.is_empty() { "-".into() } else {
         s.iter().map(|e| format!("{}:{}:{}:{}:{}:{}:{}", e.id, e.simhash, hexs(&e.filter),
-            if e.tops.is_empty() { "-".to_string() } else { e.tops.iter().map(|t| t.to_string()).collect::<Vec<_>>().join("+") }, e.wsum, e.flags, e.len_hint)).collect::<Vec<_>>().join(";")
+            if e.tops.is_empty() { "-".to_string() } else { e.tops.iter().map(|t| t.to_string()).collect::<Vec<_>>().join(",") }, e.wsum, e.flags, e.len_hint)).collect::<Vec<_>>().join(";")
     }
 }
 fn ids_wire(v: &[u64]) -> String { if v.is_empty() { "-".into() } else { v.iter().map(|x| x.to_string()).collect::<Vec<_>>().join(",") } }
@@ -505,14 +510,18 @@ fn check(world: &mut World, ctx: &mut Ctx, out: &mut Outcome, i: usize, rt: bool
     let rw: Vec<Ans> = qs.iter().map(|q| run_q(world.mem(), q)).collect();
     let rw_side = side_of(world.mem());
     out.queries += 4 * qs.len() as u64;
+    if let Some(docs) = &live_side.vec_docs {
+        let inactive: Vec<u64> = docs.iter().map(|d| d.0).filter(|id| live_side.frames.get(*id as usize).map(|f| f.3 != 'a').unwrap_or(true)).collect();
+        if !inactive.is_empty() { out.branches.push("vec-index-entry-of-inactive-frame".into()); }
+    }
     if timing { eprintln!("  [t] rw done {:?} ({} queries)", t0.elapsed(), qs.len()); }
 
     // ------------------------------------------------------------------ model correspondence
-    let mut predicted_sketch_change = false;
+    let mut predicted: Vec<bool> = vec![false; qs.len()];
     if let Some(d) = ctx.drv.as_deref_mut() {
-        if let Some(f) = model_check(d, out, i, &qs, &live, &live_side, &img, &rw_side, &doc_side, &doc_img, rt || rl || rv, &mut predicted_sketch_change) { return Some(f); }
+        if let Some(f) = model_check(d, out, i, &qs, &live, &rw, &live_side, &img, &rw_side, &doc_side, &doc_img, rv, &mut predicted) { return Some(f); }
     }
-    let _ = (&ro_side, &doc_img);
+    let _ = &ro_side;
 
     // ------------------------------------------------------------------ property oracle
     for (k, q) in qs.iter().enumerate() {
@@ -527,6 +536,12 @@ fn check(world: &mut World, ctx: &mut Ctx, out: &mut Outcome, i: usize, rt: bool
             match q {
                 Q::Tl(_) => return Some(Fail::Oracle(format!("timeline-differs-after-{name}"), format!("act {i}: {what_tail}"), false)),
                 Q::Vec(_) => {
+                    // doctor(rebuild_vec_index) on a memory WITHOUT vectors switches them on by request: a
+                    // configuration change, not an index rebuild (search_vec then answers [] instead of VecNotEnabled)
+                    if name == "doctor-rebuild" && rv && !live_side.vec_enabled && live[k].main.contains("Vector_index_is_not_enabled") && other.main == "ok []" {
+                        out.branches.push("doctor-rv-enables-vec-on-vectorless-memory".into());
+                        continue;
+                    }
                     let sig = if name == "doctor-rebuild" && rv && oside.vec_docs.as_ref().map(|d| d.is_empty()).unwrap_or(true) && live_side.vec_docs.as_ref().map(|d| !d.is_empty()).unwrap_or(false) {
                         "doctor-rebuild-vec-empties-index".to_string()
                     } else { format!("vec-search-differs-after-{name}") };
@@ -543,7 +558,7 @@ fn check(world: &mut World, ctx: &mut Ctx, out: &mut Outcome, i: usize, rt: bool
                         let ids_oth: Vec<u64> = oside.sketch.iter().map(|e| e.id).collect();
                         return Some(Fail::Oracle("lexical-results-differ-after-reopen-via-sketch-track".into(),
                             format!("act {i}: sketch track frame ids {:?} on the live handle, {:?} after {name}; pre-filter candidates {:?} vs {:?}; {what_tail}", ids_live, ids_oth, ca, cb),
-                            predicted_sketch_change));
+                            predicted[k]));
                     }
                     if same_multiset && !live[k].ids.is_empty() {
                         return Some(Fail::Oracle(format!("lexical-order-differs-after-{name}"), format!("act {i}: same hits in another order / with other ranges; scores live {:?} vs {:?}; {what_tail}", live[k].scores, other.scores), false));
@@ -558,11 +573,101 @@ fn check(world: &mut World, ctx: &mut Ctx, out: &mut Outcome, i: usize, rt: bool
 
 fn cut(s: &str, n: usize) -> String { if s.len() <= n { s.to_string() } else { format!("{}…", s.chars().take(n).collect::<String>()) } }
 
+fn manifest_wire(dim: Option<u32>, bytes: &Option<Vec<u8>>) -> String {
+    match (dim, bytes) { (Some(d), Some(b)) => format!("{d}:{}", hexs(b)), _ => "none".into() }
+}
+
 /// everything the Lean model is asked at a check point
 #[allow(clippy::too_many_arguments)]
-fn model_check(d: &mut Driver, out: &mut Outcome, i: usize, qs: &[Q], live: &[Ans], live_side: &Side, img: &FileImg, rw_side: &Side,
-               doc_side: &Side, doc_img: &FileImg, doctored: bool, predicted_sketch_change: &mut bool) -> Option<Fail> {
-    let _ = (d, out, i, qs, live, live_side, img, rw_side, doc_side, doc_img, doctored, predicted_sketch_change);
+fn model_check(d: &mut Driver, out: &mut Outcome, i: usize, qs: &[Q], live: &[Ans], rw: &[Ans], live_side: &Side, img: &FileImg, rw_side: &Side,
+               doc_side: &Side, doc_img: &FileImg, rv: bool, predicted: &mut [bool]) -> Option<Fail> {
+    let dis = |what: String, m: String, im: String| Some(Fail::Disagree(format!("act {i}: {what}"), m, im));
+    let fw = frames_wire(&live_side.frames);
+    // ---- time index: the bytes rebuild_indexes wrote (commit and doctor), and every timeline of the battery
+    for (name, bytes) in [("commit", &img.time), ("doctor", &doc_img.time)] {
+        if let Some(tb) = bytes {
+            let m = d.ask(&format!("timeidx {fw}"));
+            out.branches.push("model-timeidx".into());
+            if m != hexs(tb) { return dis(format!("time index track written by {name}"), m, hexs(tb)); }
+        }
+    }
+    let track = img.time.as_ref().map(|b| hexs(b)).unwrap_or_else(|| "none".into());
+    for (k, q) in qs.iter().enumerate() {
+        if let Q::Tl(t) = q {
+            let args = format!("{} {} {} {}", t.limit, t.since.map(|x| x.to_string()).unwrap_or_else(|| "-".into()),
+                t.until.map(|x| x.to_string()).unwrap_or_else(|| "-".into()), t.reverse as u8);
+            let m = d.ask(&format!("timeline {fw} {track} {args}"));
+            let im = if live[k].main.starts_with("ok") { live[k].aux.clone() } else { "err".to_string() };
+            if m != im && !(m.starts_with("err") && im == "err") { return dis(format!("timeline {q:?} from the persisted track"), m, im); }
+            let m2 = d.ask(&format!("timelinemem {fw} {args}"));
+            if img.time.is_some() && m2 != im { return dis(format!("timeline {q:?} from the in-memory entries"), m2, im); }
+            out.branches.push("model-timeline".into());
+        }
+    }
+    // ---- vector index
+    let man = manifest_wire(live_side.vec_manifest.map(|m| m.1), &img.vec);
+    if let (Some(docs), Some(b)) = (&live_side.vec_docs, &img.vec) {
+        if !b.is_empty() {
+            let m = d.ask(&format!("vecenc {}", docs_wire(&Some(docs.clone()))));
+            out.branches.push("model-vecenc".into());
+            if m != hexs(b) { return dis("vector index bytes written by the commit".into(), m, hexs(b)); }
+        }
+    }
+    {
+        let m = d.ask(&format!("vecopen {man}"));
+        let im = format!("{} {} {}", rw_side.vec_enabled as u8, rw_side.vec_manifest.map(|x| x.1.to_string()).unwrap_or_else(|| "-".into()), docs_wire(&rw_side.vec_docs));
+        out.branches.push("model-vecopen".into());
+        if m != im { return dis("vector index state of the reopened handle".into(), m, im); }
+    }
+    for (k, q) in qs.iter().enumerate() {
+        if let Q::Vec(v) = q {
+            let m = d.ask(&format!("vecsearch {man} {} {}", bits_wire(&v.q), v.k));
+            let real = &rw[k];
+            let ok = if real.main.starts_with("ok") {
+                match m.strip_prefix("ok ") {
+                    Some(ids) => {
+                        let mids: Vec<u64> = if ids == "-" { vec![] } else { ids.split(',').filter_map(|x| x.parse().ok()).collect() };
+                        // ties of the f32 distances: compare group-wise
+                        mids.len() == real.ids.len() && tie_canon(&mids, &real.scores) == tie_canon(&real.ids, &real.scores)
+                    }
+                    None => false,
+                }
+            } else if real.main.starts_with("err dim-mismatch") { m.starts_with("err dim") }
+            else if real.main.contains("Vector_index_is_not_enabled") { m == "err notenabled" }
+            else { false };
+            out.branches.push("model-vecsearch".into());
+            if !ok { return dis(format!("search_vec {q:?} on the reopened handle (manifest {})", cut(&man, 80)), m, real.main.clone()); }
+        }
+    }
+    {
+        let active: Vec<u64> = live_side.frames.iter().filter(|f| f.3 == 'a').map(|f| f.0).collect();
+        let m = d.ask(&format!("vecdoctor gen {} {} {man}", rv as u8, ids_wire(&active)));
+        let im = manifest_wire(doc_side.vec_manifest.map(|x| x.1), &doc_img.vec);
+        out.branches.push("model-vecdoctor".into());
+        if m != im { return dis(format!("vector manifest after doctor (rebuild_vec_index={rv})"), m, im); }
+    }
+    // ---- sketch track: write + read, and the pre-filter decision before / after
+    let sk = sketch_wire(&live_side.sketch);
+    {
+        let m = d.ask(&format!("sketchrt {} {sk}", live_side.sketch_variant));
+        let im = format!("ok {} {} {}", rw_side.sketch_variant, rw_side.sketch.len(), sketch_wire(&rw_side.sketch));
+        out.branches.push("model-sketchrt".into());
+        if m != im { return dis("sketch track of the reopened handle".into(), m, im); }
+    }
+    for (k, q) in qs.iter().enumerate() {
+        if let Q::Lex(l) = q {
+            let variant = match live_side.sketch_variant.as_str() { "medium" => memvid_core::types::SketchVariant::Medium, "large" => memvid_core::types::SketchVariant::Large, _ => memvid_core::types::SketchVariant::Small };
+            let qsk = QuerySketch::from_query(&l.query, variant);
+            let m = d.ask(&format!("cands 32 {} {} {} {sk}", qsk.simhash, hexs(&qsk.term_filter), live_side.sketch_variant));
+            let real = |s: &Side| -> Vec<u64> { s.sketch_real.iter().filter(|e| qsk.score_entry(e, 32).is_some()).map(|e| e.frame_id).collect() };
+            let (rl_, rr) = (real(live_side), real(rw_side));
+            let im = format!("{} {}", ids_wire(&rl_), ids_wire(&rr));
+            out.branches.push("model-cands".into());
+            if m != im { return dis(format!("sketch pre-filter candidates of {:?} (live, reopened)", l.query), m, im); }
+            predicted[k] = rl_ != rr;
+            if !rl_.is_empty() { out.branches.push("sketch-candidates-nonempty".into()); }
+        }
+    }
     None
 }
 
@@ -620,7 +725,7 @@ fn gen_history(rng: &mut Rng, thorough: bool) -> Vec<Act> {
                 90..=92 => acts.push(Act::Op(Op::Commit)),
                 93..=94 => acts.push(Act::Op(Op::Reopen)),
                 95 => acts.push(Act::Op(Op::Crash)),
-                96 => acts.push(Act::Op(Op::Vacuum)),
+                96 => acts.push(Act::Op(if rng.bool() { Op::Vacuum } else if rng.bool() { Op::CommitSkip } else { Op::Commit })),
                 97 => acts.push(Act::Probe { seed: rng.u64() }),
                 _ => { acts.push(Act::Op(Op::Put(gen_text_put(rng, &mut ts, &mut n, dim, instant_pct)))); frames_est += 1; }
             }
@@ -733,7 +838,7 @@ fn main() {
         sum.model_requests = drv.as_ref().map(|d| d.requests).unwrap_or(0);
         sum.finish(&args);
     }
-    let n_hist: usize = args.extra.get("nhist").and_then(|s| s.parse().ok()).unwrap_or(if args.thorough { 120 } else { 10 });
+    let n_hist: usize = args.extra.get("nhist").and_then(|s| s.parse().ok()).unwrap_or(if args.thorough { 40 } else { 4 });
     let max_fail: usize = args.extra.get("maxfail").and_then(|s| s.parse().ok()).unwrap_or(3);
     let budget = args.extra.get("shrink").and_then(|s| s.parse().ok()).unwrap_or(if args.thorough { 240 } else { 60 });
     let only = args.extra.get("only").cloned();
